@@ -8,6 +8,7 @@ feat (dict of generator features, all optional):
   tanks=(lo,hi)      number of tanks
   extra_res=(lo,hi)  additional reservoirs
   pumps, valves, cvs: bool   allow pumps / valves / check-valve pipes
+  power_pumps: bool  allow constant-power pumps as the feed pump (default True)
   pump_feed: bool|None  the first reservoir feeds through a pump (None = draw)
   closed: bool       allow initially closed pipes
   leaks: bool        junction / tank leaks
@@ -155,7 +156,7 @@ def network(draw, feat=None):
         low = r(draw(st.floats(0, 10)), 1)
         spec['reservoirs'].append({'name': 'R1', 'head': low, 'pat': None})
         lift = hres - low
-        if draw(st.integers(0, 3)) == 0:
+        if draw(st.integers(0, 3)) == 0 and feat.get('power_pumps', True):
             ej = [j for j in spec['junctions'] if j['name'] == entry][0]
             if not wild and not any(d[0] > 0 and d[1] is None for j in spec['junctions'] for d in j['demands']):
                 ej['demands'][0] = [0.002, None, None]      # a power pump cannot run at zero flow
